@@ -80,6 +80,11 @@ func (m *MonC10) OnEnd(w *World) []Violation {
 					}
 				}
 			}
+			// (f) every {cid} tag is expanded towards the services, wherever it stands
+			if strings.Contains(e.Subject, "{cid}") || strings.Contains(e.Query, "{cid}") {
+				m.viols = append(m.viols, Violation{Property: "C10", Class: "cid_tag_not_expanded", Step: e.Step, T: e.T, Conn: w.ActorOf(e.CID),
+					Message: fmt.Sprintf("%s %s (query %q) still contains a {cid} tag", e.Kind, e.Subject, e.Query)})
+			}
 			// (c) a subject or query containing a connection id other than the causing connection's
 			for _, cid := range cids {
 				if cid == "" {
